@@ -49,8 +49,9 @@ pub fn enabled_ops(s: &Spec, with_recycle: bool) -> Vec<Op> {
         let hi = spec_is_high(s.kind, s.k, s.r);
         let obase = if hi { pow2ceil(s.r) } else { 0 };
         let rbase = if hi { 0 } else { pow2ceil(s.k) };
-        let mut oi = vec![0usize, 1, s.k - 1, s.k, s.k + 1, usize::MAX - obase, (usize::MAX - obase).wrapping_add(1), usize::MAX];
-        let mut ri = vec![0usize, 1, s.r - 1, s.r, s.r + 1, usize::MAX - rbase, (usize::MAX - rbase).wrapping_add(1), usize::MAX];
+        // 1 << 32, 1 << 16, 1 << 8: aliases of index 0 under truncation to 32, 16, 8 bits
+        let mut oi = vec![0usize, 1, s.k - 1, s.k, s.k + 1, usize::MAX - obase, (usize::MAX - obase).wrapping_add(1), usize::MAX, 1 << 32, 1 << 16, 1 << 8];
+        let mut ri = vec![0usize, 1, s.r - 1, s.r, s.r + 1, usize::MAX - rbase, (usize::MAX - rbase).wrapping_add(1), usize::MAX, 1 << 32, 1 << 16, 1 << 8];
         oi.dedup();
         ri.dedup();
         let mut seen = HashSet::new();
@@ -288,8 +289,8 @@ pub fn run(ctx: &Ctx, rep: &mut Report) {
         rep.violation(Violation { key: format!("oneshot-{}-k{}r{}-{}-{}", kv.str("fn"), kv.str("k"), kv.str("r"), kv.opt("lens").or(kv.opt("orig")).unwrap_or(""), kv.opt("rec").unwrap_or("")), case: kv.dump(), expected: exp, observed: obs });
     }
     // static argument sweep: validate/new/reset over the count x size alphabet
-    let counts = [0usize, 1, 2, 3, 5, 32768, 32769, 61440, 61441, 65535, 65536, 65537, 1 << 32, usize::MAX];
-    let sizes = [0usize, 1, 2, 3, 64, 65, 66, usize::MAX, usize::MAX - 1];
+    let counts = [0usize, 1, 2, 3, 5, 32768, 32769, 61440, 61441, 65535, 65536, 65537, 1 << 32, (1 << 32) + 1, (1 << 32) + 2, usize::MAX];
+    let sizes = [0usize, 1, 2, 3, 64, 65, 66, (1 << 32) + 1, usize::MAX, usize::MAX - 1];
     let mut sweep = Vec::new();
     for kind in [Kind::Rs, Kind::Def, Kind::High, Kind::Low] {
         for &k in &counts {
